@@ -14,17 +14,21 @@ PLAN = {
         unit("cyc", "TestC01Hist", 1200, 15000, seed_off=200)]},
     "C02": {"level": "exploration", "units": [
         unit("disc", "TestC02", 700, 12000, replay="TestReplayC02", shrinktime="30s"),
-        unit("side", "TestC02Listener", 300, 3000, replay="TestReplayC02Listener", seed_off=900)]},
+        unit("side", "TestC02Listener", 300, 3000, replay="TestReplayC02Listener", seed_off=900),
+        unit("sys", "TestC02Sys", 3, 20, replay="TestReplayC02Sys", seed_off=950, shrinktime="30s", workers={"quick": 8, "thorough": 16})]},
     "C03": {"level": "exploration", "units": [
         unit("loop", "TestC03", 500, 8000, replay="TestReplayC03", shrinktime="30s"),
-        unit("expl", "TestC03Flood", 3, 8, replay="TestReplayC03Flood", seed_off=900, shrinktime="20s")]},
+        unit("expl", "TestC03Flood", 3, 8, replay="TestReplayC03Flood", seed_off=900, shrinktime="20s"),
+        unit("sys", "TestC03Sys", 3, 20, replay="TestReplayC03Sys", seed_off=950, shrinktime="30s", workers={"quick": 8, "thorough": 16})]},
     "C04": {"level": "exploration", "units": [
         unit("cyc", "TestC04", 3000, 40000, replay="TestReplayC04"),
-        unit("cyc", "TestC04Hist", 1200, 15000, seed_off=200)]},
+        unit("cyc", "TestC04Hist", 1200, 15000, seed_off=200),
+        unit("sys", "TestC04Sys", 3, 20, replay="TestReplayC04Sys", seed_off=950, shrinktime="30s", workers={"quick": 8, "thorough": 16})]},
     "C05": {"level": "exploration", "units": [
         unit("cyc", "TestC05", 3000, 40000, replay="TestReplayC05"),
         unit("loop", "TestC05Loop", 300, 5000, replay="TestReplayC05Loop", shrinktime="30s", seed_off=500)]},
-    "C06": {"level": "fault_enumeration", "units": [unit("loop", "TestC06", 500, 8000, replay="TestReplayC06", shrinktime="30s")]},
+    "C06": {"level": "fault_enumeration", "units": [unit("loop", "TestC06", 500, 8000, replay="TestReplayC06", shrinktime="30s"),
+        unit("sys", "TestC06Sys", 3, 20, replay="TestReplayC06Sys", seed_off=950, shrinktime="30s", workers={"quick": 8, "thorough": 16})]},
     "C07": {"level": "exploration", "units": [
         unit("cyc", "TestC07", 3000, 40000, replay="TestReplayC07"),
         unit("cyc", "TestC07Hist", 1200, 15000, seed_off=200)]},
@@ -47,14 +51,16 @@ PLAN = {
     "C13": {"level": "fault_enumeration", "units": [unit("side", "TestC13", 250, 3000, replay="TestReplayC13")]},
     "C14": {"level": "exploration", "units": [
         unit("side", "TestC14", 1000, 15000, replay="TestReplayC14"),
-        {"pkg": "side", "test": "FuzzC14", "kind": "fuzz", "fuzztime": {"thorough": "180s"}, "checks": {"quick": 0, "thorough": 0}, "replay": None}]},
+        {"pkg": "side", "test": "FuzzC14", "kind": "fuzz", "fuzztime": {"thorough": "180s"}, "checks": {"quick": 0, "thorough": 0}, "replay": None},
+        unit("sys", "TestC14Sys", 3, 20, replay="TestReplayC14Sys", seed_off=950, shrinktime="30s", workers={"quick": 8, "thorough": 16})]},
     "C15": {"level": "exploration", "units": [
         unit("disc", "TestC15", 500, 10000, replay="TestReplayC15"),
         unit("disc", "TestC15Process", 50, 400, seed_off=700, workers={"quick": 1, "thorough": 4}),
         unit("disc", "TestC15Explore", 300, 4000, seed_off=900)]},
     "C16": {"level": "exploration", "units": [
         unit("cfgh", "TestC16", 250, 6000, replay="TestReplayC16", shrinktime="30s"),
-        unit("cfgh", "TestC16Process", 40, 300, seed_off=700, workers={"quick": 1, "thorough": 4})]},
+        unit("cfgh", "TestC16Process", 40, 300, seed_off=700, workers={"quick": 1, "thorough": 4}),
+        unit("sys", "TestC16Sys", 3, 20, replay="TestReplayC16Sys", seed_off=950, shrinktime="30s", workers={"quick": 8, "thorough": 16})]},
     "C17": {"level": "exploration", "units": [unit("disc", "TestC17", 400, 8000, replay="TestReplayC17", race=True, shrinktime="30s")]},
     "C18": {"level": "exploration", "units": [
         unit("k8s", "TestC18Grid", 1, 1, replay="TestReplayC18", rapid=False, workers={"quick": 1, "thorough": 1}),
